@@ -1324,9 +1324,12 @@ def state_pipeline_table(ctx, rule):
         ('div', {'dir': 'auto', '_label': 'auto3'}, [('span', {'dir': 'ltr', '_label': 's3'}, [HE]), ' latin']),
         ('div', {'dir': 'auto', '_label': 'auto4'}, [('span', {'dir': 'RTL', '_label': 's4'}, ['abc']), ' ' + HE]),
         ('div', {'dir': 'rtl', '_label': 'r'}, [('p', {'_label': 'rp'}, []), ('p', {'dir': 'nope', '_label': 'rq'}, [])]),
-        ('bdi', {'_label': 'bdi'}, [HE])])])]
-    rows_d = [('div:dir(rtl)', ['auto1', 'auto2', 'auto4', 'r']), ('div:dir(ltr)', ['auto3']), ('span:dir(rtl)', ['s1', 's2', 's4']), ('span:dir(ltr)', ['s3']),
-              ('p:dir(rtl)', ['rp', 'rq']), ('bdi:dir(rtl)', ['bdi']), ('html:dir(ltr)', ['root'])]
+        ('bdi', {'_label': 'bdi'}, [HE]),
+        # a descendant with dir=auto (any spelling) is skipped like one with dir=ltr / rtl: it resolves its own direction
+        ('div', {'dir': 'auto', '_label': 'auto5'}, [('span', {'dir': 'auto', '_label': 's5'}, [HE]), ' latin']),
+        ('bdi', {'_label': 'bdi2'}, [('em', {'dir': 'AUTO', '_label': 'e6'}, [HE]), 'xyz'])])])]
+    rows_d = [('div:dir(rtl)', ['auto1', 'auto2', 'auto4', 'r']), ('div:dir(ltr)', ['auto3', 'auto5']), ('span:dir(rtl)', ['s1', 's2', 's4', 's5']), ('span:dir(ltr)', ['s3']),
+              ('p:dir(rtl)', ['rp', 'rq']), ('bdi:dir(rtl)', ['bdi']), ('bdi:dir(ltr)', ['bdi2']), ('em:dir(rtl)', ['e6']), ('html:dir(ltr)', ['root'])]
     TF = [('html', {}, [('body', {}, [
         ('form', {'_label': 'outer'}, [('input', {'type': 'radio', 'name': 'g', '_label': 'o1'}, []), ('input', {'type': 'submit', '_label': 'sub0'}, []),
                                        ('form', {'_label': 'inner'}, [('input', {'type': 'radio', 'name': 'g', 'checked': '', '_label': 'i1'}, []),
